@@ -282,6 +282,82 @@ fn run_case(sink: &mut Sink, v: &Variant, text: &str, tag: &str, verbose: bool) 
     // split exactly as without the plugins
     let mode = if (sink.len() + text.len()) % 2 == 0 { Mode::A } else { Mode::B };
     mode_case(sink, v, text, mode, verbose);
+    // ... and with the word-info fields restricted (set_subset / Python fields=): one subset per case, all for directed texts
+    if tag == "text:directed" || tag == "replay" {
+        for k in 0..SUBSETS.len() {
+            subset_case(sink, v, text, k, verbose);
+        }
+    } else {
+        subset_case(sink, v, text, (sink.len() + text.len()) % SUBSETS.len(), verbose);
+    }
+}
+
+// ------------------------------------------------------------------------------------------------ restricted fields
+/// field subsets that contain POS_ID (the numeral plugin needs it) but do not load the dictionary-side surface
+const SUBSETS: [(&str, u32); 4] = [("POS_ID", 0), ("POS_ID|NORMALIZED_FORM", 1), ("POS_ID|NORMALIZED_FORM|READING_FORM", 2), ("POS_ID|SPLIT_A|SPLIT_B", 3)];
+
+fn subset_of(k: usize) -> sudachi::dic::subset::InfoSubset {
+    use sudachi::dic::subset::InfoSubset as S;
+    match k {
+        0 => S::POS_ID,
+        1 => S::POS_ID | S::NORMALIZED_FORM,
+        2 => S::POS_ID | S::NORMALIZED_FORM | S::READING_FORM,
+        _ => S::POS_ID | S::SPLIT_A | S::SPLIT_B,
+    }
+}
+
+/// byte ranges reported by a StatefulTokenizer restricted to the subset
+fn analyse_subset(dict: &JapaneseDictionary, text: &str, k: usize) -> Result<Vec<(usize, usize)>, String> {
+    use sudachi::analysis::stateful_tokenizer::StatefulTokenizer;
+    use sudachi::prelude::MorphemeList;
+    let r = catch(|| {
+        let mut tok = StatefulTokenizer::create(dict, false, Mode::C);
+        tok.set_subset(subset_of(k));
+        tok.reset().push_str(text);
+        tok.do_tokenize().map_err(|e| format!("{:?}", e))?;
+        let mut list = MorphemeList::empty(dict);
+        list.collect_results(&mut tok).map_err(|e| format!("{:?}", e))?;
+        Ok::<_, String>(list.iter().map(|m| (m.begin(), m.end())).collect::<Vec<_>>())
+    });
+    match r {
+        Ok(Ok(v)) => Ok(v),
+        Ok(Err(e)) => Err(format!("Err({})", e)),
+        Err(p) => Err(format!("Panic({})", p)),
+    }
+}
+
+/// "tokens are only merged, never dropped": with the plugins the analysis succeeds whenever it succeeds without them,
+/// it covers the same text, and its boundaries are a subset of the plugin-free ones
+fn subset_case(sink: &mut Sink, v: &Variant, text: &str, k: usize, verbose: bool) {
+    let d = json!({"kind": "rewrite_subset", "variant": v.name, "text": text, "subset": SUBSETS[k].0, "subset_index": k});
+    let inp = analyse_subset(&v.base, text, k);
+    let out = analyse_subset(&v.with, text, k);
+    if verbose {
+        println!("fields {}: without plugins {:?}, with plugins {:?}", SUBSETS[k].0, inp, out);
+    }
+    match (inp, out) {
+        (Err(_), Err(_)) => {}
+        (Ok(a), Ok(b)) => {
+            sink.tag(&format!("fields:{}", SUBSETS[k].0));
+            let id = sink.case_rust_only(d, b.len() < a.len());
+            let cuts = |x: &Vec<(usize, usize)>| x.iter().flat_map(|r| [r.0, r.1]).collect::<std::collections::BTreeSet<usize>>();
+            let (ca, cb) = (cuts(&a), cuts(&b));
+            let chain = |x: &Vec<(usize, usize)>| x.windows(2).all(|w| w[0].1 == w[1].0) && x.first().map_or(true, |r| r.0 == 0) && x.last().map_or(text.is_empty(), |r| r.1 == text.len());
+            if !cb.is_subset(&ca) {
+                sink.fail(id, &format!("{:?} [{}] with fields {}: boundaries with plugins {:?} are not a subset of those without {:?}", text, v.name, SUBSETS[k].0, b, a), "");
+            } else if !chain(&b) {
+                sink.fail(id, &format!("{:?} [{}] with fields {}: tokens with plugins {:?} do not cover the text", text, v.name, SUBSETS[k].0, b), "");
+            }
+        }
+        (Ok(_), Err(e)) => {
+            let id = sink.case_rust_only(d, true);
+            sink.fail(id, &format!("{:?} [{}] with fields {} analyses without path-rewrite plugins but fails with them: {}", text, v.name, SUBSETS[k].0, e), "");
+        }
+        (Err(e), Ok(_)) => {
+            let id = sink.case_rust_only(d, true);
+            sink.fail(id, &format!("{:?} [{}] with fields {} fails without path-rewrite plugins ({}) but analyses with them", text, v.name, SUBSETS[k].0, e), "");
+        }
+    }
 }
 
 fn mode_name(m: Mode) -> &'static str {
@@ -357,6 +433,7 @@ fn compile_alt() -> Vec<u8> {
     assert_eq!(changed, 3, "rows of 4 / 四 / 9 found in tests/resources/lex.csv");
     out.push_str(ALT_ROWS);
     out.push_str(&attr_rows(46, 47, 52, 53));
+    out.push_str(HEADWORD_ROWS);
     let conn = crate::c15::read_repo("sudachi/tests/resources/matrix_10x10.def");
     let mut b = DictBuilder::new_system();
     b.read_conn(&conn[..]).expect("matrix");
@@ -382,8 +459,20 @@ fn attr_rows(juu: u32, hyaku: u32, coffee: u32, cup: u32) -> String {
     )
 }
 
+/// numeral-class words whose headword (dictionary-side surface, what concat_nodes concatenates) does NOT have the byte
+/// length of the text they match (the lookup key): full-width key with ASCII / kanji headword, ASCII key with full-width
+/// headword (cheaper than the row of lex.csv, so that it is the one on the path), kanji key with ASCII headword.
+/// Appended last to both lexicons: the word ids other rows refer to stay valid.
+const HEADWORD_ROWS: &str = "\
+８,9,9,2478,8,名詞,数詞,*,*,*,*,ハチ,8,*,A,*,*,*,*
+７,9,9,2478,七,名詞,数詞,*,*,*,*,ナナ,7,*,A,*,*,*,*
+３,9,9,2478,３３,名詞,数詞,*,*,*,*,サン,3,*,A,*,*,*,*
+8,9,9,1200,８,名詞,数詞,*,*,*,*,ハチ,8,*,A,*,*,*,*
+六,9,9,1200,6,名詞,数詞,*,*,*,*,ロク,六,*,A,*,*,*,*
+";
+
 fn variants(work: &std::path::Path) -> Vec<Variant> {
-    let mut vs = variants_of(work, "", &compile_system(&format!("{}{}", EXTRA_ROWS, attr_rows(46, 47, 55, 56))), true);
+    let mut vs = variants_of(work, "", &compile_system(&format!("{}{}{}", EXTRA_ROWS, attr_rows(46, 47, 55, 56), HEADWORD_ROWS)), true);
     vs.extend(variants_of(work, "alt-", &compile_alt(), false));
     vs
 }
@@ -512,7 +601,7 @@ fn termination_probe(sink: &mut Sink, work: &std::path::Path, only: Option<&str>
 }
 
 const PIECES_KATA: [&str; 20] = ["テレビ", "キロ", "コーヒーカップ", "テレビゲーム", "アイ", "アイウ", "コーヒー", "カップ", "アイアイウ", "ラ", "ラーメン", "ァ", "ァイ", "ー", "メ", "ヴ", "ン", "テスト", "ア", "イウ"];
-const PIECES_NUM: [&str; 31] = ["二十", "三百", "二十万", "0", "1", "2", "5", "9", "〇", "一", "二", "三", "九", "十", "百", "千", "万", "億", "兆", ",", ".", "12", "1,000", "六三四", "3.14", "4", "四", "42", "49", "1.5", "四十"];
+const PIECES_NUM: [&str; 38] = ["二十", "三百", "二十万", "0", "1", "2", "5", "9", "〇", "一", "二", "三", "九", "十", "百", "千", "万", "億", "兆", ",", ".", "12", "1,000", "六三四", "3.14", "4", "四", "42", "49", "1.5", "四十", "8", "８", "７", "３", "六", "18", "８７"];
 const PIECES_OTHER: [&str; 16] = ["に", "た", "京都", "東京都", "行っ", "a", "xyz", " ", "円", "。", "特a", "-", "東", "いく", "な。な", "X"];
 
 fn gen_text(rng: &mut Rng, nfkc: bool) -> (String, &'static str) {
@@ -558,11 +647,14 @@ const DIRECTED: [&str; 44] = [
     "123円20銭", "080-121", "一二三万二千円", "二百百", "1,000,000円", ",123,", "1.", ".5.", "1,2,3", "アイアイウ", "アイウアイ", "ァイアイ", "ラーメンアイウ",
     "コーヒーカップ", "アイ1アイ", "1アイウ2", "カップ3.50ー", "六三四アイ", "ァァァ", "1,", "に,1", "1.2.3", "京都に123,456.70円アイウラ", "",
 ];
+/// numerals whose dictionary-side surface is shorter / longer than the text (HEADWORD_ROWS), alone (re-created by
+/// enableNormalize), in runs, next to ordinary numerals
+const DIRECTED_HEADWORD: [&str; 12] = ["東京に18", "8", "８", "８７", "88円", "３", "1８2", "六", "六8", "京都に７８３円", "8.5", "二十８"];
 
 pub fn run(args: &Args) {
     let mut sink = Sink::new("C14", &args.out, &["Model.Rewrite"], args.seed, &args.tier);
     sink.shard_size = 60;
-    sink.rule("the same text analysed with one dictionary (tests/resources/lex.csv + numeral units, separators, katakana words; resources/char.def or tests/resources/char.def) without path-rewrite plugins and with a plugin chain; a second lexicon makes 4 / 四 / 9 / 億 common nouns, leaves ',' and '.' out (OOV separators inside numeral runs) and gives katakana words other parts of speech; every morpheme's reported surface()/begin()/end() must be the covered text, a merged one the union / concatenation of its parts, with the part of speech and OOV flag of the plugin that can have made the merge (JoinNumeric enableNormalize true/false, JoinKatakanaOov minLength 0/1/2/3/5/9, three OOV parts of speech, both orders, each alone); texts are concatenations of katakana dictionary words / katakana OOV pieces (incl. NOOOVBOW ァ) / digits, kanji digits, units, separators, well-formed and malformed numerals / other words, the empty text, every piece alone and between blanks (paths of 0 / 1 / 2 tokens), pairs of pieces; directed sequences first (separators at text edges, numerals next to katakana runs); Coq model of both loops run on the plugin-free path must equal the result with plugins and grouping_ok must hold on it; a Rust oracle re-checks boundary subset, union range, concatenated surface, prescribed part of speech, unchanged rest; non-trivial = at least one merge; extra stream with the NFKC input-text plugin (oracle only)");
+    sink.rule("the same text analysed with one dictionary (tests/resources/lex.csv + numeral units, separators, katakana words; resources/char.def or tests/resources/char.def) without path-rewrite plugins and with a plugin chain; a second lexicon makes 4 / 四 / 9 / 億 common nouns, leaves ',' and '.' out (OOV separators inside numeral runs) and gives katakana words other parts of speech; every morpheme's reported surface()/begin()/end() must be the covered text, a merged one the union / concatenation of its parts, with the part of speech and OOV flag of the plugin that can have made the merge (JoinNumeric enableNormalize true/false, JoinKatakanaOov minLength 0/1/2/3/5/9, three OOV parts of speech, both orders, each alone); texts are concatenations of katakana dictionary words / katakana OOV pieces (incl. NOOOVBOW ァ) / digits, kanji digits, units, separators, well-formed and malformed numerals / other words, the empty text, every piece alone and between blanks (paths of 0 / 1 / 2 tokens), pairs of pieces; directed sequences first (separators at text edges, numerals next to katakana runs); Coq model of both loops run on the plugin-free path must equal the result with plugins and grouping_ok must hold on it; a Rust oracle re-checks boundary subset, union range, concatenated surface, prescribed part of speech, unchanged rest; non-trivial = at least one merge; extra stream with the NFKC input-text plugin (oracle only); numeral-class words whose headword does not have the byte length of their key (full-width / kanji / ASCII headword for a key written otherwise) in both lexicons, directed and as pieces; every case additionally with the word-info fields restricted (StatefulTokenizer::set_subset: POS_ID; POS_ID|NORMALIZED_FORM; +READING_FORM; POS_ID|SPLIT_A|SPLIT_B - none loads the surface): with plugins the analysis succeeds whenever it succeeds without, covers the text, boundaries are a subset");
     let vs = variants(&args.work);
     if let Some(p) = &args.replay {
         let r: Value = serde_json::from_str(&std::fs::read_to_string(p).unwrap()).unwrap();
@@ -574,6 +666,11 @@ pub fn run(args: &Args) {
         }
         let name = c["variant"].as_str().unwrap();
         let v = vs.iter().find(|v| v.name == name).expect("variant of the replay exists");
+        if c["kind"] == "rewrite_subset" {
+            subset_case(&mut sink, v, c["text"].as_str().unwrap(), c["subset_index"].as_u64().unwrap_or(0) as usize, true);
+            sink.finish();
+            return;
+        }
         if c["kind"] == "rewrite_mode" {
             let mode = match c["mode"].as_str() { Some("A") => Mode::A, Some("B") => Mode::B, _ => Mode::C };
             mode_case(&mut sink, v, c["text"].as_str().unwrap(), mode, true);
@@ -588,6 +685,13 @@ pub fn run(args: &Args) {
     for t in DIRECTED.iter() {
         for v in vs.iter().filter(|v| !v.input_plugin) {
             if v.name.ends_with("num+kat3") || v.name.ends_with("numraw+kat1") || v.name.ends_with("kat2") || v.name.ends_with("numraw") {
+                run_case(&mut sink, v, t, "text:directed", false);
+            }
+        }
+    }
+    for t in DIRECTED_HEADWORD.iter() {
+        for v in vs.iter().filter(|v| !v.input_plugin) {
+            if v.name.ends_with("/num") || v.name.ends_with("numraw") || v.name.ends_with("num+kat3") {
                 run_case(&mut sink, v, t, "text:directed", false);
             }
         }
